@@ -13,8 +13,10 @@ R14.3  finalize_input_helper (MIR): takes the PSBT by shared reference; every su
 R14.4  interpreter_inp_check: an error from any yielded constraint, or from from_txdata, fails the check
 R14.5  the eight PsbtExt finalize entry points pass the malleability switch their name announces and finalize every
        input (finalize_mut collects per-input errors and keeps going)
-R14.6  get_descriptor: decision table over output type x (redeem script, witness script, partial-signature keys):
-       a descriptor is inferred only when the scripts commit to the spent output"""
+R14.7  the updater records, per descriptor type, exactly the BIP-174 redeem / witness script and nothing on a
+       scriptPubKey mismatch
+(get_descriptor's inference table is not decided separately: whatever it infers, R14.3/R14.4 force the result through
+the interpreter against the real scriptPubKey, whose commitment checks are decided by C13 R13.4.)"""
 
 import itertools
 import os
@@ -474,6 +476,88 @@ def check_entry_points(chk, F):
                 chk.fail(R, "unanalysable:" + nm, "unanalysable: %s" % e, where=e.where, kind="unanalysable")
 
 
+# ---- R14.7 updater: which scripts are recorded ------------------------------------------------------------------
+
+def check_updater(chk, F):
+    from . import assembly
+    from ..interp import explore
+    spec = assembly.spec
+    R = "R14.7"
+    chk.rule(R, "update_item_with_descriptor_helper records, per descriptor type, exactly the redeem / witness script of "
+                "BIP-174 (and the derivation map), and records nothing when the target scriptPubKey does not match")
+    fn = F.fn("update_item_with_descriptor_helper", file="psbt/mod.rs")
+    chk.saw(fn)
+    vals = assembly.values()
+    hooks = dict(assembly.script_hooks())
+    from ..builtins import deref, PySet
+
+    class PyMap(PyVec):
+        pass
+    hooks["std::collections::BTreeMap::<K, V>::new"] = lambda m_, a, c: PyMap()
+
+    def append(m_, a, c):
+        x, y = deref(a[0]), deref(a[1])
+        if isinstance(x, Term):
+            raise Unsupported("append to opaque map")
+        x.items.extend(y.items)
+        y.items[:] = []
+        return ()
+    hooks["std::collections::BTreeMap::<K, V, A>::append"] = append
+    hooks["bitcoin::secp256k1::Secp256k1::<bitcoin::secp256k1::VerifyOnly>::verification_only"] = lambda m_, a, c: Term("secp")
+    hooks["bitcoin::secp256k1::context::alloc_only::<impl bitcoin::secp256k1::Secp256k1<bitcoin::secp256k1::VerifyOnly>>::verification_only"] = lambda m_, a, c: Term("secp")
+    DESC = "descriptor::Descriptor"
+    for name, v in vals.items():
+        dv = Adt(DESC, {"Bare": "Bare", "Pkh": "Pkh", "Wpkh": "Wpkh", "Wsh": "Wsh"}.get(name, "Sh"), {"0": v})
+        for match in (True, False):
+            key = "%s|%s" % (name, "match" if match else "mismatch")
+
+            def translate(m_, a, c, dv=dv):
+                lk = deref(a[1])
+                if isinstance(lk, Adt) and "0" in lk.fields and isinstance(lk.fields["0"], PyVec):
+                    lk.fields["0"].items.append(("derived_key", "key_source"))
+                return ok(dcopy(dv))
+            hk = dict(hooks)
+            for p in F.fns:
+                if p.endswith("Descriptor::<Pk>::translate_pk"):
+                    hk[p] = translate
+            m = Machine(F, strict=False, hooks=hk, uninterpreted=assembly.unint)
+            spk_fn = assembly.method(F, DESC, "script_pubkey")
+            try:
+                spk = m.call_path(spk_fn, [dcopy(dv)])
+                item = mk_input("item")
+                for n in ("redeem_script", "witness_script"):
+                    item.fields[n] = NONE
+                item.fields["bip32_derivation"] = PyMap()
+                target = spk if match else Term("some_other_script")
+
+                def assume(t, taken):
+                    if t.op == "eq" or t.op == "ne":
+                        return (t.op == "eq") == match if "some_other_script" in repr(t) else None
+                    return None
+                res = explore(m, lambda: m.call_callee({"def": fn, "resolved": fn, "name": "helper",
+                                                        "targs": [INPUT]}, [item, dcopy(dv), some(target)]), assume)
+            except Unsupported as e:
+                chk.fail(R, "unanalysable:" + key, "unanalysable: %s" % e, where=e.where, kind="unanalysable")
+                continue
+            if len(res) != 1:
+                chk.fail(R, key, "expected a single path, got %d" % len(res), kind="unanalysable")
+                continue
+            conds, r = res[0]
+            flag = r.fields["0"][1] if isinstance(r, Adt) and r.variant == "Ok" else None
+            red = assembly.nf(item.fields["redeem_script"].fields["0"]) if item.fields["redeem_script"].variant == "Some" else None
+            wit = assembly.nf(item.fields["witness_script"].fields["0"]) if item.fields["witness_script"].variant == "Some" else None
+            nmap = len(item.fields["bip32_derivation"].items)
+            if match:
+                want = spec.PSBT_SCRIPTS[name]
+                chk.obligation(R, flag is True and (red, wit) == want and nmap == 1, key,
+                               "recorded redeem_script=%r witness_script=%r derivations=%d flag=%r; BIP-174 expects %r"
+                               % (red, wit, nmap, flag, want), where="src/psbt/mod.rs")
+            else:
+                chk.obligation(R, flag is False and red is None and wit is None and nmap == 0, key,
+                               "scriptPubKey mismatch but fields were written: redeem=%r witness=%r derivations=%d flag=%r"
+                               % (red, wit, nmap, flag), where="src/psbt/mod.rs")
+
+
 def run(chk):
     F = chk.facts()
     chk.explanation = __doc__
@@ -490,3 +574,5 @@ def run(chk):
         chk.guard("R14.4", "interp-check", check_interp_check, chk, F)
     if not ONLY or "5" in ONLY:
         chk.guard("R14.5", "entry-points", check_entry_points, chk, F)
+    if not ONLY or "7" in ONLY:
+        chk.guard("R14.7", "updater", check_updater, chk, F)
